@@ -31,6 +31,15 @@ Clauses (names as they appear in violation records)
   note-array-columns   ks_fifths, ks_mode, ts_beats, ts_beat_type, ts_mus_beats, is_downbeat,
         rel_onset_div, tot_measure_div of Part.note_array equal the reference at the note's onset
   map-total            building or calling a map raised
+  requery-after-write  (space write-into-result-then-query) a map object held by the caller still returns the values in
+        force after the caller has overwritten, in place, an array it got back from an earlier query of that map
+        (every query form is the victim once; then every position is queried again as scalar and as array, on the
+        same map object and on a map fetched afterwards)
+
+Space `timeline-beyond-measures`: the measures do not span the whole timeline - it goes on after the final barline
+(a note sounding over it / starting at or after it, a key signature, clef or time signature after it) and/or begins
+before the first barline; positions inside a measure must still get that measure's extent, number and length
+(also in the note-array columns), positions in no measure are only checked for scalar/array agreement.
 """
 import itertools
 
@@ -62,8 +71,15 @@ ASSUMPTIONS = [
     "pickup correction counts notated beats of musical-beat length, proposed_fixes/C10-s-pickup-correction-musical-beat.diff)",
     "number of staves of a part = highest staff number of a note or clef (at least 1); clef_map returns one row per staff "
     "(staff, sign code, line, octave change with None read as 0), array queries stack the rows per staff",
-    "measure clauses are only generated for contiguous measures tiling first..last time point; positions at the end of the "
-    "last measure (contained in no measure) are only checked for scalar/array agreement",
+    "measure clauses are only generated for contiguous measures; they tile first..last time point except in the space "
+    "timeline-beyond-measures and two edits of edit-then-query, where the timeline goes on after the final barline or begins "
+    "before the first one; positions contained in no measure (the end of the last measure, positions after it or before the "
+    "first barline) are only checked for scalar/array agreement, and note-array measure columns only for notes starting inside a measure",
+    "a part beginning before its first barline is only generated with a complete first measure (no pickup) and no change of "
+    "time signature or quarter duration up to the first barline",
+    "requery-after-write: a caller may write into an array a map returned when numpy allows it (flags.writeable); results that "
+    "are read-only or not arrays are left alone; what a map returns for a position must not depend on such writes (the statement "
+    "quantifies over every query of every position)",
     "pickup: the first measure is shorter than beats x divisions-per-beat of the time signature in force at the start "
     "(explicit at the first point, absent = 4/4, or starting later with beat type 4) on a part that starts at position 0, with a full "
     "bar that is a whole number of divisions and no change of time signature or quarter duration inside the first beat; then "
@@ -290,6 +306,98 @@ def check_map(res, part, name, T, exp, nst, ctx):
     return calls
 
 
+def _scribble(r):
+    """Overwrite in place every array the caller got back (where numpy permits) -> number of arrays written."""
+    n = 0
+    for a in (r if isinstance(r, (tuple, list)) else [r]):
+        if isinstance(a, np.ndarray) and a.size and a.flags.writeable:
+            a[...] = a + 37
+            n += 1
+    return n
+
+
+def check_requery(res, part, name, T, exp, nst, ctx):
+    """One map object; every query form is the victim once: its result is overwritten in place, then every position
+    is queried again (scalar and array) on the same object; finally on a map fetched afterwards.
+    -> (calls, number of results that could be written)"""
+    where = "Part.%s" % name
+    calls = 1
+    written = 0
+    n = len(T)
+    arr = np.array(T, dtype=int)
+
+    def boom(ex, what):
+        if isinstance(ex, Hang):
+            raise ex
+        res.fail("map-total", kind="exception", where=innermost_partitura_frame(ex) or where, observed=exc_text(ex),
+                 detail="%s %s %s" % (ctx, name, what))
+
+    def want(i, first):
+        e = exp(T[i])
+        return [first[i]] if e is None else e
+
+    def requery(g, first, what):
+        """-> number of calls, or None after a violation"""
+        c = 0
+        try:
+            for i, t in enumerate(T):
+                c += 1
+                r = norm_scalar(name, g(t), nst)
+                if r not in want(i, first):
+                    res.fail("requery-after-write", expected=want(i, first)[0], observed=r, where=where,
+                             detail="%s %s: scalar query t=%d" % (ctx, what, t))
+                    return None
+            c += 1
+            rows = norm_vector(name, g(arr.copy()), n, nst)
+            for i, row in enumerate(rows):
+                if row not in want(i, first):
+                    res.fail("requery-after-write", expected=want(i, first)[0], observed=row, where=where,
+                             detail="%s %s: array query, position t=%d" % (ctx, what, T[i]))
+                    return None
+        except Exception as ex:  # noqa
+            boom(ex, what)
+            return None
+        return c
+
+    try:
+        f = getattr(part, name)
+        first = [norm_scalar(name, f(t), nst) for t in T]  # first answers of this map object (nothing written yet)
+        calls += n
+    except Exception as ex:  # noqa
+        boom(ex, "first queries")
+        return calls, written
+    mid = n // 2
+    victims = [("scalar t=%d" % t, (lambda t=t: f(t))) for t in T]
+    victims.append(("numpy scalar t=%d" % T[mid], lambda: f(np.int64(T[mid]))))
+    victims.append(("array of all positions", lambda: f(arr.copy())))
+    victims.append(("reversed array", lambda: f(arr[::-1].copy())))
+    victims.append(("list of all positions", lambda: f([int(t) for t in T])))
+    victims.append(("one-element array", lambda: f(np.array([T[mid]], dtype=int))))
+    victims.append(("empty array", lambda: f(np.array([], dtype=int))))
+    for what, call in victims:
+        try:
+            calls += 1
+            w = _scribble(call())
+        except Exception as ex:  # noqa
+            boom(ex, what)
+            return calls, written
+        written += w
+        c = requery(f, first, "same map object after writing into the result of the query %s" % what)
+        if c is None:
+            return calls, written
+        calls += c
+    try:
+        calls += 1
+        g = getattr(part, name)
+    except Exception as ex:  # noqa
+        boom(ex, "property access")
+        return calls, written
+    c = requery(g, first, "map fetched after results of the earlier map object were written into")
+    if c is not None:
+        calls += c
+    return calls, written
+
+
 NA_COLS = {
     "ks": ["ks_fifths", "ks_mode"],
     "ts": ["ts_beats", "ts_beat_type", "ts_mus_beats"],
@@ -381,6 +489,7 @@ def eval_case(case):
     objs = []
     out = ""
     nontrivial = False
+    written = 0
     for pi, ph in enumerate(case["phases"]):
         for op in ph:
             res.transitions += 1
@@ -409,6 +518,10 @@ def eval_case(case):
                 continue
             for name in MAPS[fam]:
                 res.transitions += check_map(res, part, name, T, expected_fn(name, st, codes), nst, ctx)
+                if case.get("scribble") and not res.violations:
+                    c, w = check_requery(res, part, name, T, expected_fn(name, st, codes), nst, ctx)
+                    res.transitions += c
+                    written += w
         res.transitions += check_note_array(res, part, st, maps, ctx)
         meas = M.ref_measures(st) if "meas" in maps else []
         pk = bool(meas) and meas[0][0] != meas[0][3]
@@ -420,6 +533,10 @@ def eval_case(case):
         if "inplace" in case:
             out += " inplace%d musical%d mb%s" % (min(st.inplace, 3), int(st.musical_mode),
                                                   "".join(str(min(r[3], 9)) for r in st.ts_rows()[:2]))
+        if case.get("scribble"):
+            out += " written%s" % ("0" if not written else "1+" if written < 20 else "20+")
+        if meas and "beyond" in case:
+            out += " beyond%d/%d" % (min(meas[0][3] - T[0], 2), min(T[-1] - meas[-1][1], 2))
         if len(T) >= 2:
             nontrivial = True
         if res.violations:
@@ -516,13 +633,47 @@ def spaces(tier, seed):
         _blocked(lambda: M.gen_meas_setq(range(4, 9), 3), lambda: M.gen_meas_setq(range(4, 13), 4), tier, seed),
         bounds="core: tilings of 0..L (L=4..8) by 2-3 measures with the quarter duration changing at a later barline "
                "(1->2, 2->1, 2->3), signature none/4/4/3/4/6/8; thorough: L<=12, <=4 measures" + blk))
+    # -- the timeline is longer than the measures
+    ts_bey = [None, ("at0", 4, 4), ("at0", 3, 4), ("at0", 6, 8), ("gap", 3, 4)]
+    sp.append(Space(
+        "timeline-beyond-measures",
+        _blocked(lambda: itertools.chain(
+                     M.gen_meas_beyond(range(1, 7), (1, 2), ts_bey, 3, (0, 1, 3), leads=(0, 2)),
+                     M.gen_meas_beyond((4, 6), (1,), ts_bey[:3], 3, (1,), numberings=("odd",), tail_kinds=("over", "late"))),
+                 lambda: itertools.chain(
+                     M.gen_meas_beyond(range(1, 10), (1, 2, 3), ts_wide, 4, (0, 1, 2, 3, 5), leads=(0, 1, 2, 4),
+                                       numberings=("from1", "odd")),
+                     M.gen_meas_beyond((12, 16), (2, 4), ts_wide, 3, (0, 2, 7), leads=(0, 3))), tier, seed, nb=32),
+        bounds="the measures do not span the timeline. core: every tiling of g..g+L (L=1..6) by <=3 measures, quarter duration "
+               "1,2, time signature none / 4/4 3/4 6/8 at 0 / 3/4 starting at the second barline; the timeline goes on d in "
+               "{0,1,3} divisions after the final barline E through one of: a note from the last barline to E+d, a note E..E+d, "
+               "a note E+d-1..E+d, a key signature / clef / 2/4 time signature at E+d; and begins g in {0,2} divisions "
+               "before the first barline through a note 0..g or a key signature at 0 (complete first measure only); (g,d) != (0,0); "
+               "irregular numbering inserted last-to-first for L=4,6; notes at every measure start and one division later; all four "
+               "map families and the note-array columns; thorough: L<=9 with <=4 measures, quarter durations 1,2,3, 11 signature "
+               "options, d in {0,1,2,3,5}, g in {0,1,2,4}, L=12,16" + (" (blocks of 32)" if not thorough else "")))
+    # -- a caller writes into a returned array and asks again
+    sp.append(Space(
+        "write-into-result-then-query",
+        _blocked(lambda: M.gen_requery(), lambda: M.gen_requery(wide=True), tier, seed, nb=32),
+        bounds="parts: <=2 key signatures (6 values; pairs of 3) / <=2 time signatures (3 values) on every set of positions of 0..3 "
+               "and 1..3, framed by a note or bare; clefs on <=2 staves of 0..2; every tiling of 0..L (L=1..6) by <=3 measures with "
+               "4 signature options and quarter duration 1,2, with key signature and clef, with the timeline going on 2 divisions "
+               "after / beginning 1 before the measures; the 5 + 8 base parts of the in-place and edit spaces. For every compared "
+               "map ONE map object is kept; each query form in turn (int scalar at every position, numpy scalar, array of all "
+               "positions, reversed array, list, one-element array, empty array) is the victim: every array it returned is "
+               "overwritten in place (+37; skipped when numpy marks it read-only), then every position is queried again on the "
+               "same object as scalar and in one array, at the end also on a freshly fetched map; thorough: <=3 signatures of 4 "
+               "values on 0..4 / 2..4, all 46 single key signatures, 3 staves, tilings of L<=8 by <=4 measures, quarter duration 3, "
+               "the whole core of timeline-beyond-measures" + (" (blocks of 32)" if not thorough else "")))
     # -- edits
     sp.append(Space(
         "edit-then-query",
         _blocked(lambda: M.gen_edits(6), lambda: itertools.chain(M.gen_edits(6, wide=True), M.gen_edits(8)), tier, seed, nb=16),
         bounds="core: 4 base parts (no / one at 0 / one later / two elements of each kind, two measures, timeline 0..6) queried, then "
                "one edit (add a time signature, key signature, clef on staff 1/2/3 at every position, a note on a new staff, an "
-               "appended measure, or remove one element), then queried again; thorough: every ordered pair of edits (3 phases) and "
+               "appended measure, a note sounding 2 divisions over the final barline, a key signature after it, or remove one "
+               "element), then queried again; thorough: every ordered pair of edits (3 phases) and "
                "timeline 0..8" + (" (blocks of 16)" if not thorough else "")))
     # -- in-place changes (no Part.add / Part.remove between two queries)
     allmaps = ("ts", "ks", "clef", "meas")
